@@ -397,7 +397,7 @@ def package_facts(repo: str, engine: str):
 
 
 def engine_session_facts(repo: str, engine: str):
-    """(takes_conn, selfref) from sqlframe/<engine>/session.py"""
+    """(takes_conn, selfref, cached) from sqlframe/<engine>/session.py"""
     p = os.path.join(repo, "sqlframe", engine, "session.py")
     tree, src = py2v.load(p)
     builders = [n for n in ast.walk(tree) if isinstance(n, ast.ClassDef) and n.name == "Builder"]
@@ -407,6 +407,13 @@ def engine_session_facts(repo: str, engine: str):
     sess = [n for n in b.body if isinstance(n, ast.FunctionDef) and n.name == "session"]
     if len(sess) != 1:
         raise Untranslatable(f"sqlframe/{engine}/session.py: Builder.session not found")
+    decos = [dotted(d) for d in sess[0].decorator_list]
+    if decos == ["property"]:
+        cached = False
+    elif decos in (["cached_property"], ["functools.cached_property"]):
+        cached = True
+    else:
+        raise Untranslatable(f"sqlframe/{engine}/session.py: Builder.session decorators {decos} not understood")
     rets = [n for n in ast.walk(sess[0]) if isinstance(n, ast.Return)]
     if len(rets) != 1 or not isinstance(rets[0].value, ast.Call):
         raise Untranslatable(f"sqlframe/{engine}/session.py: Builder.session has another shape")
@@ -427,7 +434,7 @@ def engine_session_facts(repo: str, engine: str):
                     selfref = True
                 if isinstance(n, ast.Import) and any(a.name.split(".")[0] == "pyspark" for a in n.names):
                     selfref = True
-    return takes, selfref
+    return takes, selfref, cached
 
 
 def base_session_facts(repo: str):
@@ -505,13 +512,15 @@ def generate(repo: str):
         raise Untranslatable(f"activate stores the connection under {act['conn_key']!r} but the Builder reads "
                              f"{bs['builder_conn_key']!r}")
     pk = {e: package_facts(repo, e) for e, _ in engines}
-    noconn, selfref = [], []
+    noconn, selfref, cached = [], [], []
     for e, _ in engines:
-        takes, sr = engine_session_facts(repo, e)
+        takes, sr, ca = engine_session_facts(repo, e)
         if not takes:
             noconn.append(e)
         if sr:
             selfref.append(e)
+        if ca:
+            cached.append(e)
     text = "\n".join([
         "(* generated by translate/c20_facts.py from " + repo + " -- do not edit *)",
         "From SF Require Import C20.Activate.",
@@ -531,7 +540,8 @@ def generate(repo: str):
         "  " + boollit(deact["protected"]),
         "  " + boollit(bs["singleton_global"]),
         "  " + listlit([strlit(x) for x in noconn]),
-        "  " + listlit([strlit(x) for x in selfref]) + ".",
+        "  " + listlit([strlit(x) for x in selfref]),
+        "  " + listlit([strlit(x) for x in cached]) + ".",
         "",
     ])
     loc = "sqlframe/__init__.py"
@@ -546,11 +556,11 @@ def generate(repo: str):
         {"name": "_BaseSession.__new__/Builder.getOrCreate", "source": "sqlframe/base/session.py", "hash": bs["hash"],
          "value": {"singleton_global": bs["singleton_global"], "conn_key": bs["builder_conn_key"]}},
         {"name": "Builder.session per engine", "source": "sqlframe/<engine>/session.py",
-         "value": {"noconn": noconn, "selfref": selfref}},
+         "value": {"noconn": noconn, "selfref": selfref, "cached_session": cached}},
     ] + [{"name": f"package sqlframe.{e}", "source": f"sqlframe/{e}/__init__.py", "hash": pk[e]["hash"],
           "value": {"names": pk[e]["names"], "loaded_on_import": pk[e]["init"], "files": pk[e]["files"]}}
          for e, _ in engines]
-    info = {"engines": [e for e, _ in engines], "prefix": dict(engines), "noconn": noconn, "selfref": selfref,
+    info = {"engines": [e for e, _ in engines], "prefix": dict(engines), "noconn": noconn, "selfref": selfref, "cached": cached,
             "ctx_finally": cx["finally"], "catch": deact["catch"], "clear_protected": deact["protected"],
             "forced": act["forced"], "reset": act["reset"], "singleton_global": bs["singleton_global"],
             "conn_key": act["conn_key"], "files": {e: pk[e]["files"] for e, _ in engines}}
